@@ -28,6 +28,15 @@ pub fn table_decommit(
             >= bottom_layer_depth;
 
     let n_columns: u32 = commitment.config.n_columns.to_bigint().try_into()?;
+    #[cfg(swiftness_verif)]
+    swiftness_transcript::verif::ev("tc.begin")
+        .f("n_columns", &commitment.config.n_columns)
+        .f("height", &commitment.vector_commitment.config.height)
+        .f("nvf", &commitment.vector_commitment.config.n_verifier_friendly_commitment_layers)
+        .b("bottom_friendly", is_bottom_layer_verifier_friendly)
+        .fs("queries", queries.iter())
+        .fs("values", decommitment.values.iter())
+        .emit();
     if n_columns as usize * queries.len() != decommitment.values.len() {
         return Err(Error::DecommitmentLength);
     }
@@ -43,6 +52,12 @@ pub fn table_decommit(
         n_columns,
         is_bottom_layer_verifier_friendly,
     );
+    #[cfg(swiftness_verif)]
+    swiftness_transcript::verif::ev("tc.rows")
+        .fs("mont", montgomery_values.iter())
+        .fs("idx", vector_queries.iter().map(|q| &q.index))
+        .fs("hash", vector_queries.iter().map(|q| &q.value))
+        .emit();
 
     Ok(vector_commitment_decommit(commitment.vector_commitment, &vector_queries, witness.vector)?)
 }
